@@ -136,6 +136,12 @@ def notifyAcks : List Nat → List Nat → List Nat × List Ev
       ((notifyAcks (acks.erase id) ids).1, .ack id :: (notifyAcks (acks.erase id) ids).2)
     else notifyAcks acks ids
 
+/-- A history of msgs_ack payloads handled one after the other (`handleAck` threads `st.acks`):
+all waiter closes of the history. -/
+def ackSeq : List Nat → List (List Nat) → List Ev
+  | _, [] => []
+  | acks, ids :: rest => (notifyAcks acks ids).2 ++ ackSeq (notifyAcks acks ids).1 rest
+
 /-- `salts.Salts.Store` up to the order of the result: append, keep the first of equal salts. -/
 def dedupSalts : List FutureSalt → List Nat → List FutureSalt
   | [], _ => []
